@@ -216,19 +216,65 @@ def match_known(f, e):
     return e.get('id') == 'F7b' and f.get('function') == 'ubi_to_u_and_eps'
 
 
+# functions that are one program in both modules (same AST up to the numpy alias and the docstring) and whose callees inside the module are
+# themselves either in this list or related by an exact-equality theorem of C14: equal inputs (and RNG state) then give equal outputs
+SOURCE_IDENTICAL = {
+    'genhkl': ['sintl', 'sysabs'], 'genhkl_base': ['sintl', 'sysabs'], 'genhkl_unique': ['genhkl_base'], 'genhkl_all': ['genhkl_base'],
+    'reduce_cell': ['a_to_cell', 'form_a_mat'], 'ub_to_u_b': [], 'sysabs': ['sysabs_unique'], 'sysabs_unique': [],
+}
+EXACT_BY_THEOREM = {'sintl', 'a_to_cell', 'form_a_mat', 'sysabs', 'sysabs_unique'}
+
+
+def _norm_functions(path, alias):
+    import ast
+    t = ast.parse(open(path).read())
+    names = set(n.name for n in t.body if isinstance(n, ast.FunctionDef))
+    out = {}
+    for n in t.body:
+        if isinstance(n, ast.FunctionDef):
+            body = n.body
+            if body and isinstance(body[0], ast.Expr) and isinstance(getattr(body[0], 'value', None), ast.Constant) and isinstance(body[0].value.value, str):
+                n.body = body[1:] or [ast.Pass()]
+            calls = set()
+            for c in ast.walk(n):
+                if isinstance(c, ast.Call) and isinstance(c.func, ast.Name) and c.func.id in names:
+                    calls.add(c.func.id)
+            out[n.name] = (ast.dump(n, include_attributes=False).replace("Name(id='%s'" % alias, "Name(id='NP'"), calls)
+    return out
+
+
+def pre_build(ctx):
+    """source-identity obligations for the functions that are not traced"""
+    import os
+    repo = os.environ.get('XFAB_REPO', '/repo')
+    a = _norm_functions(os.path.join(repo, 'xfab', 'tools.py'), 'n')
+    b = _norm_functions(os.path.join(repo, 'xfab', 'laue.py'), 'np')
+    for f, callees in sorted(SOURCE_IDENTICAL.items()):
+        ctx.count(('srcid', f), hist='source-identity:%s' % f)
+        if f not in a or f not in b:
+            ctx.broken.append(D.Broken('obligation', 'source identity: %s is missing from tools.py or laue.py' % f, ''))
+            continue
+        if a[f][0] != b[f][0]:
+            ctx.broken.append(D.Broken('obligation', 'source identity: tools.%s and laue.%s are no longer the same program (AST differs beyond the numpy alias and the docstring)' % (f, f), ''))
+        for mod, d in (('tools', a), ('laue', b)):
+            extra = d[f][1] - set(callees)
+            if extra - set(SOURCE_IDENTICAL) - EXACT_BY_THEOREM:
+                ctx.broken.append(D.Broken('obligation', 'source identity: %s.%s now calls %s, which is not covered by an equality' % (mod, f, sorted(extra)), ''))
+
+
 SPEC = dict(
-    props=['props/C14.v'], want={'trace', 'ast'}, search=search, replay_known=replay_known, match_known=match_known,
+    props=['props/C14.v'], want={'trace', 'ast'}, pre_build=pre_build, search=search, replay_known=replay_known, match_known=match_known,
     rule='theorems relate the two regenerated models for 32 of the 41 common functions over all inputs. Search: all 41 common functions are called in '
          'both modules on the same generated inputs (cells incl. special angles, rotations, strains, g-vectors scaled as tools requires, all 230 groups for '
          'genhkl*/sysabs*) and compared up to the 2 pi convention; coverage of the 41 names is itself checked. distinct by (function, case).',
-    trusted=['Coq kernel; R axioms', 'T1 tracer'],
-    assumptions=['floats modelled by reals', 'genhkl*, sysabs*, reduce_cell, b_to_epsilon_old: compared numerically only'],
+    trusted=['Coq kernel; R axioms', 'T1 tracer', 'source-identity check (Python ast) for genhkl, genhkl_base, genhkl_unique, genhkl_all, reduce_cell, ub_to_u_b: the same program in both modules over callees that are equal by theorem'],
+    assumptions=['floats modelled by reals', 'genhkl*, reduce_cell, ub_to_u_b: identical source + differential execution, no Coq model of their loops in C14'],
 )
 
 MANIFEST = dict(
     text='32 Coq theorems, each between the definition regenerated from tools.py and the one regenerated from laue.py (equality, or the documented 2 pi '
          'relation for B matrices / g-vectors / rescaled g in the omega solvers). A one-sided edit of a duplicated function changes one generated file and '
-         'breaks its theorem. The 9 remaining common functions are compared on the implementation over all 230 groups / random cells.',
+         'breaks its theorem. The remaining common functions (genhkl*, reduce_cell, ub_to_u_b) are the same program in both modules - checked on the AST on every run, an obligation like a theorem - and are also compared by execution over all 230 groups / random cells.',
     design_ref='DESIGN.md section 5 C14',
     note='Trusted: Coq kernel, R axioms, T1 tracer. Exception: ubi_to_u_and_eps (known finding F7).',
     technique='Coq equalities between two regenerated models (reflexivity/field); differential execution for the non-traced functions',
